@@ -179,7 +179,12 @@ func (cc *ClientConnection) startTls(conn streams.Connection) (streams.Connectio
 	} else {
 		tlsConfig = &tls.Config{}
 	}
-	tlsConfig.ServerName = cc.host
+	// cc.host is the upstream's host:port; certificates are issued for the host name
+	if h, _, err := net.SplitHostPort(cc.host); err == nil {
+		tlsConfig.ServerName = h
+	} else {
+		tlsConfig.ServerName = cc.host
+	}
 
 	log.Tracef("[Client] Executing TLS handshake")
 	tlsConn := tls.Client(conn, tlsConfig)
